@@ -131,6 +131,30 @@ theorem insert_remove_restores {s s' s'' : St} {q : Quad} {b b' : Bool} (h : Inv
   | false => rw [quadEq_symm q x, hx]; rfl
   | true => rw [qmem_congr (abs s) hx, habs]; simp
 
+/-- removing an absent quad reports "no change" and leaves the same set -/
+theorem remove_absent_noop {s s' : St} {q : Quad} {b : Bool} (h : Inv s) (hlo : lookupOrderOK s)
+    (hg : s.shape.n = 3 → q.g = none) (habs : qmem q (abs s) = false)
+    (hr : Store.remove s q = (s', b)) :
+    b = false ∧ SameSet (abs s') (abs s) := by
+  have hR := remove_refines h hlo hg hr
+  have hf : Resp (fun x => !quadEq x q) := fun a c hac => by
+    show (!quadEq a q) = (!quadEq c q); rw [quadEq_congr_left q hac]
+  refine ⟨by rw [hR.1, habs], fun x => ?_⟩
+  rw [hR.2 x, qmem_filter hf]
+  cases hx : quadEq x q with
+  | false => rfl
+  | true => rw [qmem_congr (abs s) hx, habs]; rfl
+
+/-- `remove` is idempotent: a second removal of the same quad reports "no change" -/
+theorem remove_idempotent {s s' s'' : St} {q : Quad} {b b' : Bool} (h : Inv s) (hlo : lookupOrderOK s)
+    (hg : s.shape.n = 3 → q.g = none) (hr : Store.remove s q = (s', b))
+    (hr' : Store.remove s' q = (s'', b')) :
+    b' = false ∧ SameSet (abs s'') (abs s') := by
+  have hsh : s'.shape = s.shape := by have := remove_shape s q; rw [hr] at this; exact this
+  have h1 := inv_step_remove q h hlo
+  rw [hr] at h1
+  exact remove_absent_noop h1.1 h1.2 (by rw [hsh]; exact hg) (remove_then_absent h hlo hg hr) hr'
+
 /-- the hypotheses are met by a concrete history: insert an absent quad into a fresh FastDataset -/
 example : ∃ s' b, Store.insert (St.new Gen.genericFastDataset.shape Gen.maxU16)
       ⟨.iri ['a'], .iri ['p'], .lit ['1'] ['d'], some (.iri ['g'])⟩ = (s', some b) ∧ b = true := by
